@@ -346,11 +346,17 @@ def _run_job(pid, job, opts, res, ctl=None):
             else:
                 res['inconclusive'].append(f'bound exceeded ({val}); native: {nat}; inputs: {sample["inputs"]}')
             return
+        seen_viol[vkey] = seen_viol.get(vkey, 0) + 1
+        if nat is not None and nat[0] == 'ret' and is_violation(nat[1]):
+            # the symbolic run of this path ended inconclusive (unmodelled construct / escaped exception), but the real code run
+            # on the path's witness violates the property: a concrete, reproduced failure is reported as such
+            key = finding_key(job, nat[1], inputs, named) if finding_key else f'{job.get("family", job["name"])}|{nat[1]}'
+            res['violations'].append(dict(key=key, verdict=nat[1], job=job_pub, inputs=jsonable_inputs(inputs), named=named,
+                                          shown=sample['inputs'] + f' (native run of the witness of a path the encoding could not '
+                                                                   f'finish: {kind}: {short(val, 80)})'))
         if kind == 'exc':
-            seen_viol[vkey] = seen_viol.get(vkey, 0) + 1
             res['inconclusive'].append(f'exception escaped the harness: {val}; native: {nat}; inputs: {sample["inputs"]}')
             return
-        seen_viol[vkey] = seen_viol.get(vkey, 0) + 1
         res['inconclusive'].append(f'{kind}: {val}; inputs: {sample["inputs"]}')
 
     if ctl is not None:
